@@ -133,6 +133,7 @@ class InterpBase:
         self.number_locals: bool = False
         self.class_store: Dict[Tuple[str, str], Any] = {}  # class attributes set at class creation / written later
         self.class_init_phase: bool = False
+        self.widened: bool = False
         self.shift_mode: bool = False
         self.track_sym_ranges: bool = False
         self.sym_rng: Dict[Any, Interval] = {}
